@@ -161,6 +161,11 @@ def run(ctx):
         ctx.violation("c14.serialise", "c14.serialise|mapkeys", "map keys that are not string-like: %s (as_json fails)" % badkeys, None)
     else:
         ctx.ok("c14.serialise", "c14.serialise|mapkeys", "all map keys in the EnergyIndicators closure (%d types) are string-like" % len(wseen), None)
+    # ... and the JSON loads back: the serde attributes of the result types pair every omitted value with a default (the audit C04 runs on the model's types)
+    from .c04 import Audit, run_audit
+    au = Audit(ctx, ei)
+    npairs, _ = run_audit(ctx, au, rule="c14.serialise")
+    ctx.floor("c14.serialise", "types of the EnergyIndicators closure audited", len(au.seen), 15)
 
 
 def run_fixture(ctx):
